@@ -429,7 +429,7 @@ def r01_3(ctx):
             # form 2:  SumOperator.make([v1, v2], [f1, f2]) with (v1, v2) from zip(..., self._ops, op._ops)
             if isinstance(n, ast.Call) and src(n.func).endswith("SumOperator.make") and len(n.args) == 2 \
                     and isinstance(n.args[0], ast.List) and isinstance(n.args[1], ast.List) and len(n.args[0].elts) == len(n.args[1].elts) == 2:
-                zips = [g for g in ast.walk(fi.node) if isinstance(g, ast.comprehension) and isinstance(g.iter, ast.Call) and call_name(g.iter) == "zip"]
+                zips = [g for g in ast.walk(fi.node) if isinstance(g, (ast.comprehension, ast.For)) and isinstance(g.iter, ast.Call) and call_name(g.iter) == "zip"]
                 if zips and isinstance(zips[0].target, ast.Tuple):
                     tnames = [src(e) for e in zips[0].target.elts]
                     zargs = [src(a) for a in zips[0].iter.args]
@@ -437,7 +437,9 @@ def r01_3(ctx):
                     for tn_, za in zip(tnames, zargs):
                         own[tn_] = "self" if za.startswith("self.") and "_ops" in za else (other if za.startswith(f"{other}.") and "_ops" in za else None)
                     for v_, f_ in zip(n.args[0].elts, n.args[1].elts):
-                        pairs.append((own.get(src(v_)), src(f_)))
+                        # the operand may be wrapped (a missing block replaced by the identity): its owner is the zipped name it mentions
+                        names_ = [z.id for z in ast.walk(v_) if isinstance(z, ast.Name) and z.id in own and own[z.id] is not None]
+                        pairs.append((own.get(src(v_)) or (own[names_[0]] if len(set(names_)) == 1 else None), src(f_)))
         key = f"{fi.key}::each sign flag is applied to its own operand"
         if not pairs or any(o is None for o, f_ in pairs):
             ctx.und(R, key, f"{pairs}", fi)
@@ -779,10 +781,10 @@ def r01_7(ctx, m, rid="R01.7"):
         return
     ctx.saw_func(fi)
     other = fi.params()[1]
-    comps = [n for n in walk_no_nested(fi.node) if isinstance(n, (ast.DictComp, ast.ListComp, ast.GeneratorExp))]
-    verdict, detail = None, "no block-wise comprehension over zip(self._ops, other._ops) recognised"
+    comps = [n for n in walk_no_nested(fi.node) if isinstance(n, (ast.DictComp, ast.ListComp, ast.GeneratorExp, ast.For))]
+    verdict, detail = None, "no block-wise comprehension / loop over zip(self._ops, other._ops) recognised"
     for cp in comps:
-        g = cp.generators[0]
+        g = cp if isinstance(cp, ast.For) else cp.generators[0]
         if not (isinstance(g.iter, ast.Call) and call_name(g.iter) == "zip" and isinstance(g.target, ast.Tuple) and len(g.target.elts) == len(g.iter.args)):
             continue
         role = {}
@@ -794,7 +796,16 @@ def r01_7(ctx, m, rid="R01.7"):
                     role[t.id] = "O"
         if set(role.values()) != {"S", "O"}:
             continue
-        v = cp.value if isinstance(cp, ast.DictComp) else cp.elt
+        if isinstance(cp, ast.For):
+            # the composition of two present blocks: the call / matmul / make([..]) whose two operands are the zipped names
+            cands = [z for b in cp.body for z in ast.walk(b) if (isinstance(z, ast.Call) and isinstance(z.func, ast.Name) and z.func.id in role
+                                                                 and len(z.args) == 1 and isinstance(z.args[0], ast.Name) and z.args[0].id in role)
+                     or (isinstance(z, ast.BinOp) and isinstance(z.op, ast.MatMult) and isinstance(z.left, ast.Name) and isinstance(z.right, ast.Name))]
+            if not cands:
+                continue
+            v = cands[0]
+        else:
+            v = cp.value if isinstance(cp, ast.DictComp) else cp.elt
         pair = None
         if isinstance(v, ast.Call) and isinstance(v.func, ast.Name) and len(v.args) == 1 and isinstance(v.args[0], ast.Name):
             pair = (v.func.id, v.args[0].id)
@@ -816,3 +827,49 @@ _run_c01_c = run
 def run(ctx):  # noqa: F811
     _run_c01_c(ctx)
     r01_7(ctx, ctx.model)
+
+
+# ---------------------------------------------------------------------------------------------------------------- R01.8
+def r01_8(ctx, m, rid="R01.8"):
+    """missing blocks of a block-diagonal operator are the identity in every method that combines blocks"""
+    B = m.cls(OPS + "block_diagonal_operator", "BlockDiagonalOperator")
+    ctx.rule(rid, "BlockDiagonalOperator stores a documented missing block as None (= unity): every method that walks self._ops tests the "
+                  "block against None before it calls it, composes it or hands it to another operator's constructor - apply does, and "
+                  "so must the combiners the chain / sum simplifications call", floor=3)
+    for name, fi in sorted(B.methods.items()):
+        if name in ("__init__", "__repr__"):
+            continue
+        loops = [z for z in ast.walk(fi.node) if isinstance(z, (ast.comprehension, ast.For)) and "_ops" in src(z.iter)]
+        if not loops:
+            continue
+        ctx.saw_func(fi)
+        # names bound to blocks
+        names = set()
+        for lp in loops:
+            it = lp.iter
+            tg = lp.target
+            if isinstance(it, ast.Call) and call_name(it) == "zip" and isinstance(tg, ast.Tuple):
+                for t, a in zip(tg.elts, it.args):
+                    if "_ops" in src(a) and isinstance(t, ast.Name):
+                        names.add(t.id)
+            elif isinstance(tg, ast.Name):
+                names.add(tg.id)
+        tested = {z.left.id for z in ast.walk(fi.node) if isinstance(z, ast.Compare) and isinstance(z.left, ast.Name) and z.left.id in names
+                  and isinstance(z.ops[0], (ast.Is, ast.IsNot)) and isinstance(z.comparators[0], ast.Constant) and z.comparators[0].value is None}
+        # helper lambdas / functions that receive the block and test it count as well
+        for z in ast.walk(fi.node):
+            if isinstance(z, ast.Call) and isinstance(z.func, ast.Name):
+                lam = [st.value for st in ast.walk(fi.node) if isinstance(st, ast.Assign) and src(st.targets[0]) == z.func.id and isinstance(st.value, ast.Lambda)]
+                if lam and any(isinstance(q, ast.Compare) and isinstance(q.ops[0], (ast.Is, ast.IsNot)) for q in ast.walk(lam[0])):
+                    tested |= {a.id for a in z.args if isinstance(a, ast.Name) and a.id in names}
+        used = {z.id for z in ast.walk(fi.node) if isinstance(z, ast.Name) and z.id in names and isinstance(z.ctx, ast.Load)}
+        ctx.check(rid, f"{fi.key}::blocks {sorted(used)} are tested against None before use", used <= tested,
+                  f"never tested: {sorted(used - tested)} (a missing block is None)" if not used <= tested else "", fi)
+
+
+_run_c01_d = run
+
+
+def run(ctx):  # noqa: F811
+    _run_c01_d(ctx)
+    r01_8(ctx, ctx.model)
